@@ -28,6 +28,7 @@ type tier struct {
 	fullR   int // up to this size every (maxSurge, maxUnavailable) pair of the alphabets; above it the percent forms only as the pair (25%,25%)
 	twoOldR int // up to this size initial states with two old ReplicaSets; above it one old ReplicaSet
 	scaleR  int // scale +-1 transitions between sizes 1..scaleR (0 = no scale events)
+	scaleB  int // at most this many scale events per history
 	lagR    int // initial states with status.replicas = spec.replicas +-1 for Deployment sizes up to lagR
 	budget  time.Duration
 	maxStates int
@@ -36,15 +37,15 @@ type tier struct {
 func tierOf(thorough bool) tier {
 	t := tier{maxR: 5, fullR: 3, twoOldR: 4, scaleR: 0, lagR: 0, budget: 50 * time.Second, maxStates: 12_000_000}
 	if thorough {
-		t = tier{maxR: 6, fullR: 6, twoOldR: 6, scaleR: 3, lagR: 3, budget: 13 * time.Minute, maxStates: 60_000_000}
+		t = tier{maxR: 6, fullR: 4, twoOldR: 5, scaleR: 3, scaleB: 2, lagR: 3, budget: 13 * time.Minute, maxStates: 40_000_000}
 	}
 	// development knobs only (smaller / different searches while working on the check)
-	if f := strings.Split(os.Getenv("C17_DEV_TIER"), ","); len(f) == 5 {
-		v := make([]int, 5)
+	if f := strings.Split(os.Getenv("C17_DEV_TIER"), ","); len(f) == 6 {
+		v := make([]int, 6)
 		for i := range f {
 			v[i], _ = strconv.Atoi(f[i])
 		}
-		t.maxR, t.fullR, t.twoOldR, t.scaleR, t.lagR = v[0], v[1], v[2], v[3], v[4]
+		t.maxR, t.fullR, t.twoOldR, t.scaleR, t.scaleB, t.lagR = v[0], v[1], v[2], v[3], v[4], v[5]
 	}
 	if v, err := strconv.Atoi(os.Getenv("C17_DEV_BUDGET_S")); err == nil && v > 0 {
 		t.budget = time.Duration(v) * time.Second
@@ -84,6 +85,9 @@ func genInitial(t tier) []key {
 						continue // thinned tier: percent forms only together
 					}
 					base := state{R: R, P: P, MS: MS, MU: MU}
+					if R <= t.scaleR {
+						base.SB = t.scaleB
+					}
 					M := R + base.surge() // total spec.replicas bound
 					lag := R <= t.lagR
 					for nOld := 1; nOld <= 2 && (nOld == 1 || R <= t.twoOldR); nOld++ {
@@ -393,7 +397,7 @@ func Run(r *lib.Report) {
 		"replicas": fmt.Sprintf("1..%d", t.maxR), "partition": "ints 0..replicas + {0%,1%,20%,50%,99%,100%}", "maxSurge": surgeAlpha, "maxUnavailable": unavailAlpha,
 		"old_replicasets": "1..2", "new_replicaset": "0..1", "sum_spec_replicas_initial": "<= replicas+maxSurge",
 		"initial_status_lag": fmt.Sprintf("status.replicas = spec.replicas (and +-1 for replicas <= %d)", t.lagR),
-		"scale_events":       fmt.Sprintf("scale +-1 between sizes 1..%d", t.scaleR),
+		"scale_events":       fmt.Sprintf("scale +-1 between sizes 1..%d, at most %d per history", t.scaleR, t.scaleB),
 		"thinning":           fmt.Sprintf("replicas > %d: maxSurge/maxUnavailable percent forms only as the pair (25%%,25%%); replicas > %d: one old ReplicaSet only", t.fullR, t.twoOldR),
 	}
 
